@@ -36,6 +36,26 @@ func runC11(e *Env) {
 	}
 	e.Flow(func(c *flow.Ctx) { c.RuleDateFieldStores(sp) })
 	ruleC11Wire(e)
+	// the writer moved behind a function that takes a destination buffer (an AppendBinary next to MarshalBinary): the
+	// seven bytes are then decided for the buffer MarshalBinary hands in; for any other buffer they are the same seven
+	// bytes behind the caller's own only if that function appends and never writes at fixed offsets of the whole
+	// buffer (the append-only and independence rules of C16 for that function, filed here)
+	if mb := e.Method("C11.wire", "date", "Date", "MarshalBinary"); mb != nil {
+		for _, call := range e.C.Calls(mb, flow.InRepo) {
+			g := flow.Origin(e.C.StaticCallee(&call.Call))
+			for ai, a := range call.Call.Args {
+				if sl, ok := a.Type().Underlying().(*types.Slice); ok && ai < len(g.Params) {
+					if b, ok := sl.Elem().Underlying().(*types.Basic); ok && b.Kind() == types.Uint8 {
+						g, ai := g, ai
+						e.FlowAs(map[string]string{"C16.append": "C11.wire", "C16.indep": "C11.wire"}, func(c *flow.Ctx) {
+							c.RuleAppendOnlyAt(g, ai)
+							c.RuleBufIndependentAt(g, ai)
+						})
+					}
+				}
+			}
+		}
+	}
 	ruleC11Strict(e)
 	// the summaries used by C11.inv (New, FromTime on in-range components) are themselves obligations
 	ruleNewDeleg(e, "C11.new")
